@@ -161,7 +161,12 @@ func c07FixedStores(vals []string) [][]store.Pair {
 		}
 		return ps
 	}
-	return [][]store.Pair{mk(7), mk(70), mk(5)}
+	out := [][]store.Pair{mk(7), mk(70), mk(5)}
+	if len(vals) > 4 {
+		// (text values: also a store holding the empty key)
+		out = append(out, append([]store.Pair{{K: "", V: vals[1]}}, mk(6)...))
+	}
+	return out
 }
 
 func c07OrderSpecs(s c07Sel, maxLen int) [][]c07Order {
@@ -231,7 +236,13 @@ func (c07) RunUnit(t core.Tier, u int, r *core.Reporter) {
 		b    int
 	}{{drv.Row, 32}, {drv.Batch, 2}}
 	if un.fixed {
-		stores = c07FixedStores(vals)
+		fvals := vals
+		if s.kind == "text" {
+			// the fixed stores also hold the empty value, a value with a byte
+			// above every letter and one that is a prefix of another
+			fvals = append(append([]string(nil), vals...), "", "a\xff", "ab\x00")
+		}
+		stores = c07FixedStores(fvals)
 		maxLen = 3
 		cfgs = append(cfgs, struct {
 			mode string
